@@ -335,6 +335,8 @@ def run(ctx):
                 t = fc.term(r[2])
                 proots = fc.trace(t["args"][0])
                 okp = bool(proots) and all((x[0] == "param") or (x[0] == "call" and x[1] == ENV + "extend_shared") for x in proots)
+                if not okp and proots and all((x[0] == "param") or (x[0] == "call" and (x[1] == ENV + "extend_shared" or (x[1].startswith(CORE) and not x[1].startswith(ENV)))) for x in proots):
+                    okp = None   # the parent is computed by a helper of the crate (lambda_parent_env): what it returns is not followed here
                 ctx.inst("C04.R2", "body-env#parent", okp, "parent of the body environment: %s (caller's environment, or extend_shared(caller, captured scope))" % [x[:2] for x in proots], fc.loc(r[2]))
                 for x in proots:
                     if x[0] == "call" and x[1] == ENV + "extend_shared":
